@@ -201,7 +201,7 @@ def gen_hist(rng):
     hist = []
     for _ in range(rng.randint(1, 12)):
         m = rng.choice(mods)
-        c = rng.choice(["TestA", "TestB"])
+        c = rng.choice(["TestA", "TestB", "TestA", "TestB", "Test\u0391", "Test\u0392", "Test_A", "Test A", "Test-A"])
         meth = rng.choice(["test_one", "test_two", "test_x"])
         k = rng.random()
         kind = rng.choice(["success", "failure", "error"])
